@@ -1193,6 +1193,89 @@ bool shapeCheck(const ShapePlan& p, std::string& cls, std::string& detail) {
     return true;
 }
 
+
+// ---- program probes of C06: simultaneously live instances of one declaration, and the shot loop -----------------------------
+// variant 0: every activation of a recursive function declares 'qubit q', measures it and recurses; back in the caller the
+//            gate on the caller's own measured q must be refused, with the line of that gate
+// variant 1: the same shape, but the caller's q is never measured before the inner activations have measured theirs: the
+//            caller's gate and measurement must be accepted
+// variant 2: a multi-shot CLI run whose offending gate sits on a branch taken only when a measurement returns 1: the run
+//            must stop at the first such shot with the located error (it cannot end normally unless every shot measured 0)
+struct C06Probe { int variant = 0, depth = 1; uint64_t seed = 0; };
+Json c06ProbeJson(const C06Probe& p) { return Json::object().set("engine", "qhist").set("level", "c06_probe").set("variant", p.variant).set("depth", p.depth).set("rng_seed", Json((unsigned long long)p.seed)).set("rng_run", Json(0ull)); }
+std::string c06ProbeSource(const C06Probe& p) {
+    if (p.variant == 0)
+        return "function nest(int d) -> void {\n    qubit q;\n    if (d == 0) { return; }\n    x(q);\n    bit m = measure q;\n    nest(d - 1);\n    h(q);\n    echo(\"not refused\");\n}\nfunction main() -> void {\n    nest(" + std::to_string(p.depth) + ");\n}\n";
+    if (p.variant == 1)
+        return "function nest(int d) -> void {\n    qubit q;\n    if (d > 0) { nest(d - 1); }\n    h(q);\n    bit m = measure q;\n    echo(\"level \" + d);\n}\nfunction main() -> void {\n    nest(" + std::to_string(p.depth) + ");\n    echo(\"done\");\n}\n";
+    return "@shots(12)\nfunction main() -> void {\n    qubit a;\n    h(a);\n    bit m = measure a;\n    echo(\"m=\" + m);\n    if (m) {\n        h(a);\n    }\n}\n";
+}
+bool c06ProbeCheck(const C06Probe& p, std::string& cls, std::string& detail) {
+    std::string src = c06ProbeSource(p);
+    g_rng.reset(p.seed ^ 0xc06c06ull, 0);
+    gcs::g_observer = nullptr;
+    gcs::install();
+    gcs::Schedule s;
+    s.generative = true;
+    s.meanIncNs = 1000000;
+    if (p.variant == 2) {
+        std::string file = g_scratch + "/c06probe.bloch";
+        sim::writeFile(file, src);
+        std::vector<std::string> args = {"bloch", "--echo=all", file};
+        std::vector<char*> av;
+        for (auto& a : args) av.push_back(const_cast<char*>(a.c_str()));
+        g_rng.install();
+        std::string out, err;
+        int rc;
+        {
+            CoutCapture cap;
+            gcs::beginRun(s);
+            rc = cli::run((int)av.size(), av.data(), cli::Context{});
+            gcs::endRun();
+            out = cap.out.str();
+            err = cap.err.str();
+        }
+        rngs::Provider::uninstall();
+        long zeros = 0, ones = 0;
+        std::string cur;
+        for (char c : out) { if (c == '\n') { if (cur == "m=0") ++zeros; if (cur == "m=1") ++ones; cur.clear(); } else cur.push_back(c); }
+        if (rc == 0 && (zeros != 12 || ones != 0)) { cls = "measured_qubit_operated_on"; detail = "a 12-shot run ended normally although only " + std::to_string(zeros) + " shots measured 0 (the others reach a gate on a measured qubit): " + err.substr(0, 200); return false; }
+        if (rc != 0 && (err.find("already been measured") == std::string::npos || err.find("Ln 8") == std::string::npos)) { cls = "guard_error_without_location", detail = "the run stopped with: " + err.substr(0, 200); return false; }
+        return true;
+    }
+    std::unique_ptr<compiler::Program> prog;
+    try {
+        compiler::Lexer lx(src);
+        auto toks = lx.tokenize();
+        compiler::Parser ps(std::move(toks));
+        prog = ps.parse();
+        compiler::SemanticAnalyser an;
+        an.analyse(*prog);
+    } catch (const std::exception& e) { cls = "harness_rejected"; detail = e.what(); return false; }
+    g_rng.install();
+    int status = 0, line = 0;
+    std::string message, echoes;
+    {
+        CoutCapture cap;
+        gcs::beginRun(s);
+        {
+            runtime::RuntimeEvaluator ev;
+            try { ev.execute(*prog); } catch (const support::BlochError& e) { status = 1; message = e.what(); line = e.line; } catch (const std::exception& e) { status = 3; message = e.what(); }
+            for (auto& l : ev.m_echoBuffer) echoes += l + "|";
+        }
+        gcs::endRun();
+        echoes += cap.out.str();
+    }
+    rngs::Provider::uninstall();
+    if (p.variant == 0) {
+        if (status == 0) { cls = "measured_qubit_operated_on"; detail = "the caller's gate on its own measured qubit was accepted after an inner activation of the same declaration (" + echoes.substr(0, 60) + ")"; return false; }
+        if (message.find("already been measured") == std::string::npos || line != 7) { cls = "guard_error_without_location"; detail = "expected the located refusal at Ln 7, got: " + message; return false; }
+        return true;
+    }
+    if (status != 0) { cls = "unexpected_runtime_error"; detail = "no qubit is touched after its measurement, but the run stopped: " + message; return false; }
+    return true;
+}
+
 // ================================================================================================
 // plans, runs, shrinking
 // ================================================================================================
@@ -1449,6 +1532,28 @@ void runOne(const sim::Options& opt, uint64_t run, sim::RunReport& rep) {
         fprintf(stderr, "rejected (run %llu): %s\n", (unsigned long long)run, detail.c_str());
         return;
     }
+    // program probes of C06 on a sample of runs
+    if (property == "C06" && run % 32 == 9 && cls.empty()) {
+        sim::Rng pg(opt.seed, "c06probe", run);
+        C06Probe cp;
+        cp.variant = (int)pg.below(3);
+        cp.depth = pg.range(1, 3);
+        cp.seed = opt.seed ^ (run * 0x9e3779b97f4a7c15ull);
+        rep.count(cp.variant == 2 ? "probe.shot_loop_with_offending_branch" : "probe.recursive_declarations");
+        std::string c1, d1, c2, d2;
+        if (!c06ProbeCheck(cp, c1, d1) && c1 != "harness_rejected") {
+            c06ProbeCheck(cp, c2, d2);
+            sim::Violation v;
+            v.cls = c1;
+            v.signature = "probe:" + c1;
+            v.detail = d1;
+            v.reproducible = c2 == c1;
+            v.plan = c06ProbeJson(cp);
+            rep.violations.push_back(std::move(v));
+            return;
+        }
+        if (c1 == "harness_rejected") { rep.count("probe.rejected_by_front_end"); fprintf(stderr, "C06 probe rejected: %s\n", d1.c_str()); }
+    }
     // class-shape probe of C03 on a sample of runs
     if (property == "C03" && run % 32 == 7 && cls.empty()) {
         sim::Rng sg(opt.seed, "shape", run);
@@ -1649,7 +1754,13 @@ int doReplay(const sim::Options& opt) {
     std::string property = opt.property.empty() ? file.at("engine_property").asStr() : opt.property;
     uint64_t seed = pj.at("rng_seed").asU64(1), run = pj.at("rng_run").asU64(0);
     std::string cls, detail;
-    if (pj.at("level").asStr() == "class_shape") {
+    if (pj.at("level").asStr() == "c06_probe") {
+        C06Probe cp;
+        cp.variant = (int)pj.at("variant").asInt();
+        cp.depth = (int)pj.at("depth").asInt();
+        cp.seed = seed;
+        if (c06ProbeCheck(cp, cls, detail) || cls == "harness_rejected") cls.clear();
+    } else if (pj.at("level").asStr() == "class_shape") {
         ShapePlan sp = shapeFrom(pj);
         if (!shapeCheck(sp, cls, detail)) { if (cls == "harness_rejected") cls.clear(); }
         else cls.clear();
@@ -1771,6 +1882,7 @@ int main(int argc, char** argv) {
     // vacuity guard
     std::vector<std::string> mandatory = {"rng.words_drawn", "sim.measures", "sim.resets", "sim.entangled_resets", "sim.boundary_draws", "prog.boundaries_checked", "prog.reuse_events", "prog.genuine_resets", "prog.boundary_draws"};
     if (opt.property == "C06") { mandatory.push_back("prog.ended_with_runtime_error"); mandatory.push_back("sim.guard_probes"); }
+    if (opt.property == "C06") { mandatory.push_back("probe.recursive_declarations"); mandatory.push_back("probe.shot_loop_with_offending_branch"); }
     if (opt.property == "C03") { mandatory.push_back("shape.class_shape_probes"); mandatory.push_back("shape.field_name_redeclared_by_a_derived_class"); }
     if (opt.property == "C02") { mandatory.push_back("cli.tracked_table_checks"); mandatory.push_back("cli.tracked_scope_left_several_times_per_shot_in_multi_shot_run"); }
     if (opt.property == "C05") { mandatory.push_back("cli.qasm_file_checks"); mandatory.push_back("cli.source_named_through_symlink_dotdot"); }
